@@ -885,7 +885,7 @@ impl Release {
     /// Get whether the release has no support for architecture all
     pub fn no_support_for_architecture_all(&self) -> bool {
         self.0
-            .get("No-Support-For-Architecture-All")
+            .get("No-Support-for-Architecture-all")
             .map(|s| s == "yes")
             .unwrap_or(false)
     }
@@ -893,7 +893,7 @@ impl Release {
     /// Set whether the release has no support for architecture all
     pub fn set_no_support_for_architecture_all(&mut self, no_support_for_architecture_all: bool) {
         self.0.set(
-            "No-Support-For-Architecture-All",
+            "No-Support-for-Architecture-all",
             if no_support_for_architecture_all {
                 "yes"
             } else {
